@@ -253,8 +253,12 @@ EditNotify(f, c) ==
 
 Sync == SyncFrom(evq) /\ last' = [op |-> "sync"]
 
-(* send one batch and wait until the reloader has dequeued it *)
-Notify(batch) == SyncFrom(Append(evq, batch)) /\ last' = [op |-> "notify", batch |-> batch]
+(* send one batch and wait until the reloader has dequeued it; a cache without reloader has nobody *)
+(* to send to: whatever its source does with notifications, nothing changes                      *)
+Notify(batch) ==
+    /\ IF HasReloader THEN SyncFrom(Append(evq, batch))
+       ELSE UNCHANGED <<env, graph, toReload, evq, mode, ver, handled, d8, od>>
+    /\ last' = [op |-> "notify", batch |-> batch]
 
 (* hot_reload(): Ptr message; cache messages sent before it are applied first *)
 HotReload ==
